@@ -19,12 +19,16 @@ import (
 type vRandSource struct {
 	n       int
 	nonzero bool // the harness is not about SEID draws: exclude the (reserved) value 0
+	counter bool // concrete draws 1, 2, 3, ... (SEID values are irrelevant to the harness)
 }
 
 func (s *vRandSource) Int63() int64    { return int64(s.Uint64() >> 1) }
 func (s *vRandSource) Seed(seed int64) {}
 func (s *vRandSource) Uint64() uint64 {
 	s.n++
+	if s.counter {
+		return uint64(s.n)
+	}
 	v := vU64("rng")
 	if s.nonzero {
 		vAssume(v != 0)
